@@ -9,6 +9,12 @@ TB = "CPython 3.12, crosshair-tool 0.0.110, z3 5.1; the import shim of lib/repo_
 
 # id -> (category, technique, text, note, design_ref, engine)
 CHECKS = {
+    "C06": ("translation_validation",
+            "real check() verdict per core-fragment program (concrete) vs. a dynamic path oracle run by CrossHair/z3 over symbolic branch-decision vectors: no faulting path for accepted programs, a solver-produced faulting path for each rejected one",
+            "Restricted: the solver ranges over control-flow paths (decision vectors of up to 10 opaque conditions), the real linearity checker runs concretely on each program of a generated corpus (60 quick / 1200 thorough + 28 fixed; "
+            "allocation, borrow/consume calls, moves, swap, tuples, struct fields, if/while/break/continue/return, 7 signatures). Soundness: accepted => no decision vector makes the oracle report use-after-move, leak, "
+            "overwrite of a live value, a borrowed parameter not handed back or moved. Completeness: rejected with a linearity error => the solver exhibits such a vector (replayed natively).",
+            TB + "; lib/e6.py oracle = executable statement of the path condition and ownership rules; generator", "DESIGN.md §5 C06", "E4"),
     "C03": ("translation_validation",
             "CrossHair/z3 symbolic execution of (CPython on the source || walk over the CFG the real CFGBuilder built) per corpus program, symbolic inputs and symbolic opaque-call results; real check() decides acceptance",
             "CFG level only: for each program of a generated classical corpus (120 quick / 1500 thorough + fixed ones; if/elif/else, bounded while, for over range, break/continue/return, dead code, nested defs, unpacking, "
